@@ -562,6 +562,7 @@ func runC05(c *Ctx) {
 	R.Rules["S.start"] = "a transfer's slot table (with its creation time and first header) is created exactly by the packets numbered 1 and by every one of them: a new packet 1 restarts the transfer (stale slots of an abandoned or already completed transfer never leak into it), no other packet creates a table"
 	c.recordCreationRule("S.start")
 	R.Require("S.start", 1, "")
+	c.transferSurvivesReads("S.survives-reads")
 	R.Explain = "Decided for every decoded header (any package number, any total) and any parser state: the slot index and the concatenation loop are in range (E1), " +
 		"the timestamp record dereferenced after a slot store exists (paired-map lemma, checked structurally and then used by E1), a rejected package number leaves no side effect, " +
 		"and the message returned as complete carries a freshly concatenated body equal to its raw data and the completion flag. Exact delivery over arrival orders, duplicates and interleavings is not decided; " +
